@@ -164,8 +164,9 @@ void TcpConnection::sendInLoop(const void* data, size_t len)
       nwrote = 0;
       if (errno != EWOULDBLOCK)
       {
+        int savedErrno = errno;  // the logger's output function may change errno
         LOG_SYSERR << "TcpConnection::sendInLoop";
-        if (errno == EPIPE || errno == ECONNRESET) // FIXME: any others?
+        if (savedErrno == EPIPE || savedErrno == ECONNRESET) // FIXME: any others?
         {
           faultError = true;
         }
